@@ -67,6 +67,26 @@ def d1_export(chk, repo):
     sts = stores_of(v.ctx, coords) if coords is not None else []
     okl = any(is_str(v.ctx, i, "vdims") and v.eq(val, v.spec("self.vdims")) for i, val in sts)
     chk.ob("field.Field.to_xarray::label-coordinate", okl, "C17.D1", "coords['vdims'] must be the component labels", v.f, st)
+    from ..lib import cond_equiv, path_term
+    for s2 in v.stmts():
+        if isinstance(s2, ast.Assign) and isinstance(s2.targets[0], ast.Subscript):
+            idx = v.ev._index(s2.targets[0].slice, v.cfg.node(s2), None)
+            if is_str(v.ctx, idx, "vdims"):
+                pt = path_term(v, s2)
+                chk.ob("field.Field.to_xarray::labels-exported-iff-present", cond_equiv(
+                    v, pt, v.spec("self.nvdim > 1 and self.vdims is not None"), [v.spec("self.nvdim")]), "C17.D1",
+                    f"the label coordinate is set under {v.show(pt)}; expected: vector field with labels", v.f, s2)
+    okdn = kw.get("dims") is not None and kw.get("name") is not None and is_sym(v.ctx, kw["name"], "param:name")
+    if okdn:
+        md = phi_members(v.ctx, kw["dims"])
+        okdn = len(md) == 2 and any(v.eq(m, v.spec("self.mesh.region.dims + ('vdims',)")) for m in md) and \
+            any(v.eq(m, v.spec("self.mesh.region.dims")) for m in md)
+    chk.ob("field.Field.to_xarray::dimension-names", okdn, "C17.D1",
+           "the DataArray must be built with dims = the region's dims (+ 'vdims' for vectors) and the requested name", v.f, st)
+    for text, key in (("not isinstance(name, str)", "name-is-a-string"),
+                      ("unit is not None and not isinstance(unit, str)", "unit-is-a-string-or-none")):
+        okg, det = v.guard(text, exc=("TypeError",), before=st)
+        chk.ob(f"field.Field.to_xarray::refuses::{key}", okg, "C17.D1", det, v.f)
     at = kw.get("attrs")
     ca = decode_call(v.ctx, at) if at is not None else None
     want = {"cell": "self.mesh.cell", "pmin": "self.mesh.region.pmin", "pmax": "self.mesh.region.pmax", "nvdim": "self.nvdim",
@@ -157,7 +177,8 @@ def d2_refusals(chk, repo):
                 if (decode_call(v.ctx, ct) or ("",))[0] == "any":
                     # must live in the `except KeyError` of the cell lookup
                     enc = v.cfg.enclosing(par[0])
-                    okk = any(isinstance(p, ast.ExceptHandler) for p, f_ in enc)
+                    okk = any(isinstance(p, ast.ExceptHandler) for p, f_ in enc) and par[1] == "body" and \
+                        v.eq(ct, v.spec("any(len_ == 1 for len_ in xa.values.shape[:-1])"))
     chk.ob("field.Field.from_xarray::refuses::single-cell-without-cell", okk, "C17.D2",
            "without a 'cell' attribute a direction with a single coordinate cannot be reconstructed and must raise KeyError", v.f)
 
